@@ -351,7 +351,16 @@ pub fn run_sockets(ctx: &Ctx) {
                         _ => {}
                     }
                 }
-                let delay = rng.below(3000) as u64;
+                let mut delay = rng.below(3000) as u64;
+                if i % 25 == 11 {
+                    // a sender that pauses for a human-scale time inside a message (longer than any
+                    // poll interval the server may use): a pause is not the end of anything
+                    delay = 150_000 + rng.below(300_000) as u64;
+                    cuts.truncate(2);
+                    if cuts.is_empty() && n > 2 {
+                        cuts.push(n - 1);
+                    }
+                }
                 log.lock().unwrap().clear();
                 let mut conn = match RawConn::connect(&server.address) {
                     Ok(c) => c,
